@@ -9,7 +9,7 @@ import shutil
 import esrv
 
 PROPS_V = "Props/C17.v"
-TRANSLATORS = []
+TRANSLATORS = ["cancel"]
 TRUSTED = [
     "Coq 8.16.1 kernel + vm_compute (no native_compute)",
     "Print Assumptions: text-side theorems, loop = cancel, all_dup_spec, removes_pairs, nan, and the rational-number (Qc) composition theorem are closed "
@@ -18,6 +18,8 @@ TRUSTED = [
     "hand-written models coq/Model/InvSubsText.v (str.replace, the four replaces, a literal_eval fragment, csv rows without quoting, array_split/gather, "
     "the emitted template family) and coq/Model/SubsCancel.v (get_all_dup, the index loop of simplify_inv_subs, simultaneous substitution semantics), "
     "tied to the source by the correspondence runs below on every check",
+    "translator harness/translate/cancel.py + pyz.py (fail-closed Python ast -> Gallina): simplifier.simplify_inv_subs is regenerated into coq/Gen/GenCancel.v on every run "
+    "and proved equal to the hand model for every chain (C17_code_is_model), so the cancellation theorems (C17_code_*) are about the code as it is now",
     "sympy's str() of the value expressions, sympify of the key/value strings, csv module, numpy array_split: exercised (whole bounded family, 1-5+ ranks), not proved",
     "MPI stand-in harness/fakempi (pickling gather/bcast for >1 rank)",
 ]
@@ -741,12 +743,13 @@ LEVEL_TEXT = ("Machine-checked theorems (Coq): for EVERY dict whose key/value st
               "rank count P>=1 array_split/scatter/gather keeps row i at row i (empty rows stay empty). The index loop of simplify_inv_subs (i += 2, del_idx) is proved equal to a "
               "structural cancel for every chain; get_all_dup(k) is exactly sign flips, reciprocals and swaps below k, each an involution; for every chain, every meaning of the "
               "other steps and every parameter vector where the original chain is defined the kept chain has the same composition (over the reals and, axiom-free, the rationals); "
-              "only adjacent equal members of all_dup are removed and nan is never removed. Tests can only sample templates, rank counts and chains.")
+              "only adjacent equal members of all_dup are removed and nan is never removed. simplify_inv_subs itself is translated from the source on every run (Gen/GenCancel.v) and "
+              "proved equal to that model for every chain, so these statements hold of the code as written. Tests can only sample templates, rank counts and chains.")
 LEVEL_NOTE = ("Trusted: Coq kernel/vm_compute; the hand-written models (str.replace as left-to-right non-overlapping scan, a literal_eval fragment that refuses more than Python but never "
               "disagrees, csv rows without quoting, array_split division points) tied on every run to the real writer path, load_subs under 1-5(+) stand-in ranks, get_all_dup, "
               "simplify_inv_subs (all chains to the length bound), sympy_simplify on crafted inputs and a real generation run; sympy str/sympify are exercised on the whole family, "
               "not proved; float exponent 0.333333333333333 agrees to 1e-12 only. Reals statements depend on the stdlib axioms sig_forall_dec and functional_extensionality_dep; "
               "all others are closed.")
-TECHNIQUE = ("Coq proofs over hand-written models of the text pipeline (replace/literal_eval/csv/array_split) and of the cancellation loop with substitution semantics; "
+TECHNIQUE = ("Coq proofs over a translator-generated simplify_inv_subs (ast -> Gallina, refinement to the structural cancel) and hand-written models of the text pipeline (replace/literal_eval/csv/array_split) and of the cancellation loop with substitution semantics; "
              "finite family check by vm_compute with the bounds in the statement; correspondence by evaluating the model in Coq against the real code on the whole family, "
              "all short chains and real generation output")
